@@ -1273,6 +1273,7 @@ where
     Fut: std::future::Future<Output = ()>,
 {
     let next = AtomicU64::new(0);
+    let threads = std::env::var("E_CONC_THREADS").ok().and_then(|s| s.parse().ok()).unwrap_or(threads);
     std::thread::scope(|s| {
         for _ in 0..threads {
             s.spawn(|| {
